@@ -43,12 +43,15 @@ type xrdSpec struct {
 	Group  string `json:"group"`
 	Plural string `json:"plural"`
 	Claim  string `json:"claimPlural,omitempty"`
+	// ObjName, when set, is the XRD's metadata.name; the convention <plural>.<group> is not
+	// enforced by the API server, and the roles follow the spec, not the object name
+	ObjName string `json:"objectName,omitempty"`
 }
 
 func (x xrdSpec) object() *xpextv1.CompositeResourceDefinition {
 	kind := strings.ToUpper(x.Plural[:1]) + strings.TrimSuffix(x.Plural[1:], "s")
 	d := &xpextv1.CompositeResourceDefinition{
-		ObjectMeta: metav1.ObjectMeta{Name: x.Plural + "." + x.Group},
+		ObjectMeta: metav1.ObjectMeta{Name: x.name()},
 		Spec: xpextv1.CompositeResourceDefinitionSpec{
 			Group: x.Group,
 			Names: extv1.CustomResourceDefinitionNames{Plural: x.Plural, Singular: strings.TrimSuffix(x.Plural, "s"), Kind: kind, ListKind: kind + "List"},
@@ -61,6 +64,13 @@ func (x xrdSpec) object() *xpextv1.CompositeResourceDefinition {
 		d.Spec.ClaimNames = &extv1.CustomResourceDefinitionNames{Plural: x.Claim, Singular: strings.TrimSuffix(x.Claim, "s"), Kind: ck, ListKind: ck + "List"}
 	}
 	return d
+}
+
+func (x xrdSpec) name() string {
+	if x.ObjName != "" {
+		return x.ObjName
+	}
+	return x.Plural + "." + x.Group
 }
 
 // bound is the oracle's upper bound for every role derived from the XRD: its composite and
@@ -133,6 +143,9 @@ func xrdCase(i int, r *rand.Rand) *result {
 	if r.IntN(2) == 0 {
 		x.Claim = one(r, clmPlurals)
 	}
+	if i%5 == 4 {
+		x.ObjName = []string{"clusterrolebindings.rbac.authorization.k8s.io", "secrets.core.example.org", "my-composite-thing", "xqueues.other-group.example.org", "pods."}[(i/5)%5]
+	}
 	viaRecon := i%4 == 0
 	res.fp = kit.JSON([]any{x, viaRecon})
 	res.nt = true
@@ -168,7 +181,7 @@ func xrdCase(i int, r *rand.Rand) *result {
 	cur := x
 	for ph := 0; ph < 2; ph++ {
 		d := &xpextv1.CompositeResourceDefinition{}
-		if err := admin.Get(ctx, types.NamespacedName{Name: x.Plural + "." + x.Group}, d); err != nil {
+		if err := admin.Get(ctx, types.NamespacedName{Name: x.name()}, d); err != nil {
 			panic(err)
 		}
 		if ph == 1 {
